@@ -18,14 +18,24 @@ def run(v, tier, replay):
     fedges = {(e["t"], e["l"], e["a"], e["n"]) for e in edges["frames"]}
     dedges = {(e["d"], e["c"]) for e in edges["decoders"]}
     sd = lib.scratch("vf-c11-")
-    jobs = [("frames", str(g)) for g in range(6)] + [("flood", ""), ("decoders", "")]
+    jobs = [("frames", str(g)) for g in range(8)] + [("flood", ""), ("decoders", "")]
     def child(j):
         mode, g = j
         out = os.path.join(sd, "%s%s.ndjson" % (mode, g))
         args = [binp, mode, out, str(lib.seed())] + ([g] if g else [])
         rc, so, se = lib.run(args, timeout=900)
         return j, rc, out, (so + se)[-4000:]
+    # the client-side decoder of the execution status (unexported: add-only overlay test in package codex)
+    ov_out = os.path.join(sd, "execstatus.ndjson")
+    orc, oso, ose = lib.overlay_test("codex", "^TestVerifHostileExecStatus$", env_extra={"VT_OUT": ov_out}, timeout=600)
+    if orc != 0 or not os.path.exists(ov_out):
+        raise lib.Inconclusive("overlay driver codex failed: %s" % (oso + ose)[-2000:])
     events, fcov, dcov = [], set(), set()
+    ov = lib.read_ndjson(ov_out)
+    for e in ov:
+        if e["ev"] == "case":
+            dcov.add((e["ref"][8:], e["len"]))
+    events += [e for e in ov if e["ev"] == "decode"]
     with concurrent.futures.ThreadPoolExecutor(max_workers=8) as ex:
         for j, rc, out, tail in ex.map(child, jobs):
             evs = lib.read_ndjson(out) if os.path.exists(out) else []
